@@ -1287,7 +1287,7 @@ int main(int argc, char **argv) {
   if (STOREHOOK) {
     B << "u1 v_is_global(u8* p) {\n";
     for (GlobalVariable &GV : M->globals()) {
-      if (GV.getName().startswith("llvm.") || GV.isConstant() || GV.getName().startswith("vh_")) continue;
+      if (GV.getName().startswith("llvm.") || GV.isConstant() || GV.getName().contains("vh_")) continue;   // vh_*: harness-owned scratch globals
       if (GV.isDeclaration()) continue;
       B << "  if (__CPROVER_same_object(p, (u8*)&" << gname(&GV) << ")) return 1;\n";
     }
